@@ -4,12 +4,14 @@ PROP = dict(
     parts=[rc('C02_maps', quick_workers=4, thorough_workers=16, quick_timeout=300, thorough_timeout=3600)],
     floor=dict(quick=3000, thorough=60000),
     rule=("Generated (rapidcheck, shrinking): operation histories of up to 120 ops (thorough 200) over three slots of one container kind, "
-          "for each of Map<int,int>, Dic<String>, HashMap<int,int>, HashDic<int>, Set<int>, Set<String>; every slot has a std::map / std::set "
+          "for each of Map<int,int>, Dic<String>, Map<int,String>, HashMap<int,int>, HashDic<int>, Set<int>, Set<String>; every slot has a std::map / std::set "
           "model. Ops: set, m[k]=v, m[k] (inserting read), const m[k], get(k,def), find (const and non-const), has, remove(k), remove of "
           "the j-th present key, overwrite of the j-th present key, clear, default / sized construction HashMap(n), Set(n) with n in 1..600, "
           "Map(k,v), initializer lists, clone (Set: copy+dup), dup, read-only copy, Map::add / Set<<Set merges (also with itself), keys(), kv(), "
           "bulk insertion of 3..240 keys (thorough ..1800: two table growths of the default table) with strides 1/3/8/256/2048/-1/-256, "
-          "==/!= in both argument orders, 'conv' (Map<int,int> only: the converting constructors Map<String,int>(Map<int,int>), "
+          "==/!= in both argument orders, 'setref' (insert or overwrite through set(k1, v) / operator()(k1, v) with v passed BY REFERENCE to "
+          "the value of the j-th entry of the same container - m[k2], *find(k2), get(k2,def), const m[k2]; model: the value as it was before "
+          "the call; only forms where the library function itself receives the reference, never m[k1] = m[k2]), 'conv' (Map<int,int> only: the converting constructors Map<String,int>(Map<int,int>), "
           "Dic<int>(Map<int,int>), Dic<double>(Dic<int>) and Map<int,int>(Map<double,int>) with source keys k/2 that merge on truncation; the "
           "result must be ascending in the target key order with every converted key found once, and stay so under overwrite / remove of "
           "existing keys and == against the same contents built by plain insertions; for merging keys only length, strict ascent, "
@@ -28,6 +30,9 @@ PROP = dict(
           "count (ASan allocator statistics) must equal its value before the case (a first mismatch is re-run once to discount one-time "
           "statics). Plus an exhaustively enumerated part: every ordered map (Map<int,int> and Dic<String>) of 0..4 keys built ascending and "
           "descending x every probe position (below, on, between, above the keys) x {find, get, const [], set, []=, [] read, remove}. "
+          "A second enumerated part: set(k1, <reference to an own entry>) for every Dic<String> / Map<int,String> of 1..13 entries (length == "
+          "capacity at 3, 6, 12), aliased entry first / middle / last, k1 below all / just below / just above the aliased key / above all / "
+          "an existing key, x the five call forms. "
           "Non-trivial: hash kinds - the history overwrites or removes a key that sits in a bucket chain of >= 2 nodes (determined from the "
           "table before the op), or makes a table grow, or evaluates == on two equal containers that enumerate in different orders; ordered "
           "kinds - lookups on maps of size <= 3 that hit a present key and at least three different (size, insertion point) not-found "
